@@ -202,7 +202,6 @@ def main():
     notes = []
     verus_results = []
     twin_results = []
-    twin_rlimit = 3
     units = cfg.get('units', [])
     harnesses = list(cfg.get('kani_quick', []))
     if tier == 'thorough':
@@ -214,8 +213,8 @@ def main():
     with ThreadPoolExecutor(max_workers=8) as ex:
         futs = []
         for u in units:
-            futs.append(('verus', u, ex.submit(safe, run_verus, u, a.repo, outdir, False)))
-            futs.append(('twin', u, ex.submit(safe, run_verus, u, a.repo, outdir, True)))
+            futs.append(('verus', u, ex.submit(safe, run_verus, u, a.repo, outdir, False, 30)))
+            futs.append(('twin', u, ex.submit(safe, run_verus, u, a.repo, outdir, True, 2)))
         kfut = None
         if harnesses:
             kfut = ex.submit(safe, kanirun.run, a.repo, harnesses, pid, cfg.get('kani_timeout', 1500),
